@@ -279,6 +279,84 @@ def strings(rnd, thorough):
         emit({"e": "str", "n": n, "ops": ops, "final": [s[i] for i in range(n)], "len": len(s)})
 
 
+def string_sequences(rnd, thorough):
+    """Sequences of stores into one StringArray / WstringArray - scalar, slice, slice <- array, mask, mask <- array (full-length
+    and packed) - with source arrays whose string tables were filled in other orders; the contents are read back after every
+    operation.  Which positions an operation selects, and what they must hold afterwards, is decided by PyMisc!StrSeqOK."""
+    pool = ["a", "b", "ab", "", "zz", "longer string", "A", "foo", "bar"]
+    slices = [(NONE, NONE, NONE), (0, 2, NONE), (1, NONE, NONE), (NONE, NONE, 2), (NONE, NONE, -1), (-2, NONE, NONE), (3, 0, -1), (1, 4, 2), (2, 2, NONE)]
+    for cname in ("StringArray", "WstringArray"):
+        if not hasattr(imath, cname):
+            continue
+        cls = getattr(imath, cname)
+
+        def source(kind, vals):
+            m = len(vals)
+            if kind == "fill":
+                a = cls(vals[0] if m else "x", m)
+                for i in range(m):
+                    a[i] = vals[i]
+                return a
+            if kind == "backwards":                 # interned in the opposite order
+                a = cls(m)
+                for i in reversed(range(m)):
+                    a[i] = vals[i]
+                return a
+            if kind == "reversed-view":             # derived from another array by a negative-step slice
+                b = cls(m)
+                for i in range(m):
+                    b[i] = vals[m - 1 - i]
+                return b[::-1]
+            a = cls(m)
+            for i in range(m):
+                a[i] = vals[i]
+            return a
+
+        for ep in range(160 if thorough else 40):
+            n = rnd.randint(1, 5)
+            fill = rnd.choice(["", "foo", "bar"])
+            d = cls(fill, n) if fill else cls(n)
+            states = [[d[i] for i in range(n)]]
+            ops = []
+            for _ in range(rnd.randint(1, 8)):
+                k = rnd.choice(["set", "slice", "slicevec", "mask", "maskvec", "maskvec"])
+                op = {"k": k}
+                exc = 0
+                try:
+                    if k == "set":
+                        op["i"] = rnd.randrange(-n, n); op["v"] = rnd.choice(pool)
+                        d[op["i"]] = op["v"]
+                    elif k == "slice":
+                        sl = rnd.choice(slices); op["key"] = jkey(sl); op["v"] = rnd.choice(pool)
+                        d[key2(sl)] = op["v"]
+                    elif k == "slicevec":
+                        sl = rnd.choice(slices); op["key"] = jkey(sl)
+                        want = len(range(*key2(sl).indices(n)))
+                        m = want if rnd.random() < 0.8 else rnd.randint(0, n)
+                        op["src"] = [rnd.choice(pool) for _ in range(m)]; op["skind"] = rnd.choice(["plain", "fill", "backwards", "reversed-view"])
+                        d[key2(sl)] = source(op["skind"], op["src"])
+                    else:
+                        mk = [rnd.randint(0, 1) for _ in range(n)]
+                        op["m"] = mk
+                        ma = imath.IntArray(n)
+                        for i in range(n):
+                            ma[i] = mk[i]
+                        if k == "mask":
+                            op["v"] = rnd.choice(pool)
+                            d[ma] = op["v"]
+                        else:
+                            r = rnd.random()
+                            m = n if r < 0.45 else (sum(mk) if r < 0.9 else rnd.randint(0, n))
+                            op["src"] = [rnd.choice(pool) for _ in range(m)]; op["skind"] = rnd.choice(["plain", "fill", "backwards", "reversed-view"])
+                            d[ma] = source(op["skind"], op["src"])
+                except BaseException:  # noqa
+                    exc = 1
+                op["exc"] = exc
+                ops.append(op)
+                states.append([d[i] for i in range(n)])
+            emit({"e": "strseq", "cls": cname, "n": n, "ops": ops, "states": states, "len": len(d)})
+
+
 # ---- FixedVArray (variable-length rows) ----------------------------------------------------------------------
 
 def varrays(rnd, thorough):
@@ -418,6 +496,7 @@ def main():
     masks2d(rnd, thorough)
     matrices(rnd, thorough)
     strings(rnd, thorough)
+    string_sequences(rnd, thorough)
     varrays(rnd, thorough)
 
 
